@@ -23,7 +23,7 @@ EXTENDS BiffCells, Json
 CONSTANTS CandsId,      \* which candidate position list (see Cands)
           NumChoices,   \* set of <<class, encoding>> usable in single-cell records
           RunChoices,   \* set of <<class, encoding>> usable inside MULRK
-          OtherChoices, \* subset of {"sst","label8","label16","bool","err","fnum","fbool","ferr","fstr","fshr","blank"}
+          OtherChoices, \* subset of {"sst","label8","label16","label0","bool","err","fnum","fbool","ferr","fstr","fempty","fshr","blank"}
           MaxCells, MaxRun, MaxIgn, WithDims
 
 \* ---- number classes (the harness has the same table with the IEEE doubles and checks that
@@ -123,6 +123,8 @@ PutOther(kind) ==
                 Emit(<<[k |-> "labelsst", r |-> r, c |-> c, isst |-> x]>>, Cell(Pos, S(Sst[x + 1])), 1)
         \/ /\ kind \in {"label8", "label16"}
            /\ Emit(<<[k |-> "label", r |-> r, c |-> c, s |-> "s1", hi |-> (kind = "label16")]>>, Cell(Pos, S("s1")), 1)
+        \/ /\ kind = "label0"       \* a LABEL holding the empty string: cch = 0, option flags, no characters
+           /\ \E hi \in BOOLEAN : Emit(<<[k |-> "label", r |-> r, c |-> c, s |-> "", hi |-> hi]>>, Cell(Pos, S("")), 1)
         \/ /\ kind = "bool"
            /\ \E b \in {0, 1} :
                 Emit(<<[k |-> "boolerr", r |-> r, c |-> c, v |-> b, err |-> 0]>>, Cell(Pos, [t |-> "b", b |-> (b = 1)]), 1)
@@ -138,6 +140,8 @@ PutOther(kind) ==
         \/ /\ kind = "ferr"
            /\ \E e \in {7, 42} :
                 Emit(<<[k |-> "formula", r |-> r, c |-> c, res |-> [t |-> "err", v |-> e]]>>, Cell(Pos, [t |-> "e", e |-> ErrName(e)]), 1)
+        \/ /\ kind = "fempty"
+           /\ Emit(<<[k |-> "formula", r |-> r, c |-> c, res |-> [t |-> "empty"]]>>, Cell(Pos, S("")), 1)
         \/ /\ kind = "fstr"
            /\ \E hi \in BOOLEAN :
                 Emit(<<[k |-> "formula", r |-> r, c |-> c, res |-> [t |-> "str"]],
